@@ -190,7 +190,7 @@ def gen_case(rng, idx: int):
                 if n in overridden:
                     continue
                 overridden.add(n)  # one override per entry: several are order-of-files semantics, see C07
-                lines.append("Path=./" + n)
+                lines.append("Path=./" + n + ("/" if n in spec["dirs"] and rng.random() < 0.6 else ""))
                 opts = []
                 if rng.random() < 0.6:
                     opts.append("Name=" + word() + " renamed")
